@@ -28,6 +28,11 @@ ATTRS = {'a': ('href', 'title'), 'img': ('src', 'alt', 'title'), 'code': ('class
 LOWER = 'abcdefghijklmnopqrstuvwxyz0123456789'
 
 
+def is_lower(ch):
+    """[a-z0-9], as two range tests (cheaper for the solver than membership in a 36-character string)"""
+    return 'a' <= ch <= 'z' or '0' <= ch <= '9'
+
+
 def amp_ok(out):
     """every '&' starts one of the five entities"""
     i = out.find('&')
@@ -54,7 +59,7 @@ def wf_html(out):
             if closing:
                 i += 1
             j = i
-            while j < n and out[j] in LOWER:
+            while j < n and is_lower(out[j]):
                 j += 1
             name = out[i:j]
             if name not in VOCAB:
@@ -85,7 +90,7 @@ def wf_html(out):
                     return False
                 i += 1
                 j = i
-                while j < n and out[j] in LOWER:
+                while j < n and is_lower(out[j]):
                     j += 1
                 if out[i:j] not in ATTRS.get(name, ()):
                     return False
@@ -146,11 +151,19 @@ def first_is(c1):
     if w == '*':
         return True
     if w == 'other':
-        return c1 != 38 and c1 != 60 and c1 != 62 and c1 != 34 and c1 != 39
+        return not first_listed(c1)
     return c1 == ord(w)
 
 
-@lemma('H1.text', 'C08', quick=ks(2) + by('dq', [False, True], by('sq', [False, True], [{'k': 3}])),
+def first_listed(c1):
+    """'other' is the complement of the first characters that have a cell of their own in this job list"""
+    for w in P('c1_cells', ['&', '<', '>', '"', "'"]):
+        if c1 == ord(w):
+            return True
+    return False
+
+
+@lemma('H1.text', 'C08', quick=ks(2) + by('dq', [False, True], by('sq', [False, True], by('c1', ['&', '<', 'other'], [{'k': 3, 'c1_cells': ['&', '<']}]))),
        thorough=ks(3) + by('dq', [False, True], by('sq', [False, True], by('c1', ['&', '<', '>', '"', "'", 'other'], [{'k': 4}]))),
        timeout=900, canary=[{'k': 1, 'wrong_oracle': True}],
        covers=['html_renderer.py:HtmlRenderer.escape_html_text'],
@@ -266,7 +279,7 @@ def hole(name, default, c1, c2, c3):
     return S(P('k'), c1, c2, c3) if P('hole') == name else default
 
 
-@lemma('H2.link', 'C08', quick=holes(['target', 'title', 'text'], 2), thorough=holes(['target', 'title', 'text'], 3), timeout=400,
+@lemma('H2.link', 'C08', quick=holes(['target', 'title', 'text'], 1) + [{'hole': 'title', 'k': 2}], thorough=holes(['target', 'title', 'text'], 3), timeout=900,
        stubs=['urllib.parse.quote -> contract stub', 'token built directly'],
        covers=['html_renderer.py:HtmlRenderer.render_link', 'html_renderer.py:HtmlRenderer.escape_url'])
 def h2_link(c1: int, c2: int, c3: int, dq: bool, sq: bool) -> bool:
@@ -281,7 +294,7 @@ def h2_link(c1: int, c2: int, c3: int, dq: bool, sq: bool) -> bool:
     return wf_html(r.render(tok))
 
 
-@lemma('H2.image', 'C08', quick=holes(['src', 'title', 'alt'], 2), thorough=holes(['src', 'title', 'alt'], 3), timeout=400,
+@lemma('H2.image', 'C08', quick=holes(['src', 'title', 'alt'], 1) + [{'hole': 'src', 'k': 2}], thorough=holes(['src', 'title', 'alt'], 3), timeout=900,
        stubs=['urllib.parse.quote -> contract stub', 'token built directly'],
        covers=['html_renderer.py:HtmlRenderer.render_image', 'html_renderer.py:HtmlRenderer.render_to_plain'])
 def h2_image(c1: int, c2: int, c3: int, dq: bool, sq: bool) -> bool:
@@ -341,7 +354,7 @@ def at_sign(at, *cs):
     return True
 
 
-@lemma('H2.code', 'C08', quick=by('fenced', [False, True], holes(['language', 'content'], 2)), thorough=by('fenced', [False, True], holes(['language', 'content'], 3)), timeout=900,
+@lemma('H2.code', 'C08', quick=by('fenced', [False, True], holes(['language', 'content'], 1)), thorough=by('fenced', [False, True], holes(['language', 'content'], 3)), timeout=1800,
        stubs=['tokens built directly'],
        covers=['html_renderer.py:HtmlRenderer.render_inline_code', 'html_renderer.py:HtmlRenderer.render_block_code'])
 def h2_code(c1: int, c2: int, c3: int, fenced: bool, dq: bool, sq: bool) -> bool:
@@ -359,7 +372,7 @@ def h2_code(c1: int, c2: int, c3: int, fenced: bool, dq: bool, sq: bool) -> bool
     return wf_html(r.render(ic)) and wf_html(r.render(bc))
 
 
-@lemma('H2.inline', 'C08', quick=by('kind', [0, 1, 2, 3, 4], [{'k': 1}, {'k': 2}]), thorough=by('kind', [0, 1, 2, 3, 4], [{'k': 1}, {'k': 2}, {'k': 3}]), timeout=600, stubs=['tokens built directly'],
+@lemma('H2.inline', 'C08', quick=by('kind', [0, 1, 2, 3, 4], [{'k': 1}]), thorough=by('kind', [0, 1, 2, 3, 4], [{'k': 1}, {'k': 2}, {'k': 3}]), timeout=1800, stubs=['tokens built directly'],
        covers=['html_renderer.py:HtmlRenderer.render_strong', 'html_renderer.py:HtmlRenderer.render_emphasis',
                'html_renderer.py:HtmlRenderer.render_strikethrough', 'html_renderer.py:HtmlRenderer.render_escape_sequence',
                'html_renderer.py:HtmlRenderer.render_line_break', 'html_renderer.py:HtmlRenderer.render_raw_text'])
@@ -391,7 +404,8 @@ def digit_cp(c):
     return 48 <= c <= 57
 
 
-@lemma('H2.blocks', 'C08', quick=[{'kind': k} for k in (0, 1, 3, 4, 5)] + [{'kind': 2, 'ordered': False}, {'kind': 2, 'ordered': True}], timeout=400, stubs=['tokens built directly', 'RenderedInt for List.start'],
+@lemma('H2.blocks', 'C08', quick=[{'kind': k, 'maxkids': 1} for k in (0, 1, 3, 4, 5)] + [{'kind': 2, 'ordered': False, 'maxkids': 1}, {'kind': 2, 'ordered': True, 'maxkids': 1}],
+       thorough=[{'kind': k, 'maxkids': 2, 'timeout': 3000} for k in (0, 1, 3, 4, 5)] + [{'kind': 2, 'ordered': o, 'maxkids': 2, 'loose': l, 'timeout': 3000} for o in (False, True) for l in (False, True)], timeout=600, stubs=['tokens built directly', 'RenderedInt for List.start'],
        covers=['html_renderer.py:HtmlRenderer.render_heading', 'html_renderer.py:HtmlRenderer.render_quote',
                'html_renderer.py:HtmlRenderer.render_paragraph', 'html_renderer.py:HtmlRenderer.render_list',
                'html_renderer.py:HtmlRenderer.render_list_item', 'html_renderer.py:HtmlRenderer.render_thematic_break',
@@ -400,8 +414,8 @@ def digit_cp(c):
 def h2_blocks(c1: int, level: int, d1: int, d2: int, is_one: bool, ordered: bool, loose: bool, nkids: int,
               align: int, header: bool) -> bool:
     """
-    pre: cp_ok(c1) and 1 <= level <= 6 and 0 <= nkids <= 2 and -1 <= align <= 1
-    pre: digit_cp(d1) and digit_cp(d2) and fixed(ordered, 'ordered')
+    pre: cp_ok(c1) and 1 <= level <= 6 and 0 <= nkids <= P('maxkids', 2) and -1 <= align <= 1
+    pre: digit_cp(d1) and d2 == d1 and fixed(ordered, 'ordered') and fixed(loose, 'loose')
     post: _
     """
     kind = P('kind')
@@ -468,7 +482,7 @@ def h3_sigma(c1: int, c2: int, dq: bool, sq: bool) -> bool:
     return _h3(S(P('k'), c1, c2), dq, sq, P('html'))
 
 
-@lemma('H3.pipeline.alph', 'C08', quick=by('c1', list('<&"[`!'), [{'k': 2, 'html': False, 'dq': False, 'sq': False}]) + by('c1', list('<&'), [{'k': 2, 'html': True, 'dq': False, 'sq': False}]),
+@lemma('H3.pipeline.alph', 'C08', quick=by('c1', list('<&"[`'), [{'k': 2, 'html': False, 'dq': False, 'sq': False}]) + by('c1', list('<&'), [{'k': 2, 'html': True, 'dq': False, 'sq': False}]),
        thorough=by('c1', list(H3_ALPH), [{'k': 2, 'html': False}, {'k': 2, 'html': True}, {'k': 3, 'html': False, 'dq': True, 'sq': False, 'timeout': 3000}, {'k': 3, 'html': True, 'dq': False, 'sq': True, 'timeout': 3000}]),
        timeout=600, per_path=60, stubs=['urllib.parse.quote -> contract stub'],
        covers=['block_token.py:Document.__init__', 'html_renderer.py:HtmlRenderer.render_document'],
